@@ -342,6 +342,44 @@ def r7_budget_vs_kernel(ctx):
     return out
 
 
+NORMALISING = re.compile(r"^std::path::(Path::(components|iter|parent|file_name|ancestors|canonicalize|strip_prefix|file_stem|extension))$|^std::fs::canonicalize$")
+LOOKUP_FILES = ("src/procfs.rs", "src/root.rs", "src/handle.rs", "src/utils/path.rs", "src/utils/dir.rs", "src/utils/fd.rs")
+
+
+def no_lexical_normalisation(ctx, rule, files=None):
+    """Lookup paths are taken apart only by the crate's own byte-exact splitter (RawComponents / path_split): std's
+    `Path::components()` & co. silently drop `.` and repeated `/` and treat a trailing `/` as absent, which is exactly
+    what RESOLVE_IN_ROOT semantics (and the procfs rules about magic-links as non-final components) depend on.
+    Expected count: zero; the matcher is exercised on a synthetic list every run."""
+    F = ctx.facts
+    out = []
+    hits = []
+    for b in F.fn_bodies():
+        if is_bitflags_generated(b):
+            continue
+        if not (b.file in LOOKUP_FILES or b.file.startswith("src/resolvers/")):
+            continue
+        if files is not None and not any(b.file == f or b.file.startswith(f) for f in files):
+            continue
+        for t in b.calls():
+            if NORMALISING.search(t.callee or "") and not t.raw.get("x"):
+                hits.append((b, t))
+    for n, (b, t) in enumerate(hits):
+        out.append(violated(rule, "%s:%s:%d" % (fn_key(b), (t.callee or "").rsplit("::", 1)[-1], n), t.where(),
+                            "%s normalises the path lexically ('.' and repeated '/' disappear, a trailing '/' is ignored) in lookup code: what is then resolved is not the path the caller gave" % t.callee))
+    ctrl = ["std::path::Path::components", "std::path::Path::parent", "std::path::Path::file_name", "std::fs::canonicalize", "std::path::Path::iter"]
+    miss = [c for c in ctrl if not NORMALISING.search(c)]
+    if miss:
+        out.append(violated(rule, "normalising:matcher", "", "the matcher no longer recognises %s" % miss))
+    elif not hits:
+        out.append(holds(rule, "normalising:none", "", "no std path-normalising call in the lookup code (matcher exercised on %d synthetic callees)" % len(ctrl)))
+    return out
+
+
+def r8_paths_are_taken_apart_byte_exactly(ctx):
+    return no_lexical_normalisation(ctx, "C01.R8")
+
+
 RULES = [
     ("C01.R1", r1_root_clamp, 2, False),
     ("C01.R2", r2_absolute_restart, 2, False),
@@ -350,4 +388,5 @@ RULES = [
     ("C01.R5", r5_modes_honoured, 4, False),
     ("C01.R6", r6_kernel_mask, 2, False),
     ("C01.R7", r7_budget_vs_kernel, 1, False),
+    ("C01.R8", r8_paths_are_taken_apart_byte_exactly, 1, False),
 ]
